@@ -80,3 +80,19 @@ prop("C06", module="MW.Props.C06", title="batch lifecycle and timing",
      state_keys=["batches", "pending"],
      weights={"submit": 22, "deliver": 16, "advance": 22, "unstake": 14, "stake": 10},
      assumptions=["block time is whole nanoseconds; deadlines compare whole seconds (env.block.time.seconds())"])
+
+prop("C19", module="MW.Props.C19", title="token-factory messages in both builds",
+     builds=["osmosis", "miniwasm"], extra=["crossbuild"],
+     variants=["instantiate", "liquid_stake", "submit_batch"], state_keys=["config"],
+     weights={"stake": 30, "unstake": 14, "submit": 14, "advance": 12},
+     quick_histories=60,
+     assumptions=["the target chains' token-factory definitions are the hand-pinned ones cited in MW/Props/C19.lean (no .proto sources offline)"],
+     trusted_extra=["translator /verif/translator/proto_schema.py (regenerates the binding tables from the sources; cross-validated by the per-type prost differential)"])
+
+prop("C20", module="MW.Props.C20", title="bindings wire-compatible, type URLs canonical",
+     skip_staking=True, builds=["miniwasm"], extra=["proto"], variants=[], state_keys=[],
+     assumptions=["'the protobuf definition' is represented by independently generated bindings (osmosis-std, prost-types) where they exist and by the pinned baseline /verif/baselines/initia_proto_schema.json elsewhere (no .proto sources offline)",
+                  "values of Rust HashMap fields are generated with at most one entry (prost's map iteration order is not deterministic)"],
+     level_text="Generic Lean theorems (varint / wire / per-level typed / Any round trips, all sizes) + table theorems decided by kernel evaluation over the schema regenerated from /repo's prost sources on every run (well-formedness, baseline, reference bindings, module tree, type URLs); the translator, the Lean wire codec and the prost attributes are cross-validated by a decode/re-encode differential on every compiled message type",
+     technique="Lean 4 theorems over a schema regenerated from the source by a translator (decide +kernel over the whole table) + per-type prost differential",
+     trusted_extra=["translator /verif/translator/proto_schema.py + generate.py", "pinned baseline of the initia/miniwasm wire schema"])
